@@ -73,7 +73,7 @@ func zzAnyConnSet(name string, maxIv int) *ConnectionSet {
 		pn := fmt.Sprintf("%s.%s", name, string(proto))
 		if i != focus {
 			k := 2
-			if vf_Tier() > 0 {
+			if vf_Tier() > 1 {
 				k = 3
 			}
 			switch vf_Choose(pn+".shape", k) {
